@@ -88,6 +88,26 @@ def main(tier='quick'):
                 cases.append({'kind': 'maxlen', 'own': N.limbs(own), 'ann': N.limbs(ann if ann is not None else 0), 'peer': N.limbs(peer),
                               'pdulens': lens, 'delivered': bool(delivered and not err)})
                 metas.append(meta)
+    # a peer announcing 1..6: no fragment fits (6 bytes of PDV header come first), so nothing can be delivered - but
+    # neither may anything LONGER than announced leave (first half of the statement); judged by the same clause
+    import io
+    from . import dimselib as D_
+    for peer in range(1, 7):
+        for source in ('bytes', 'file', 'no-data-set'):
+            msg = D_.dm.CStoreRQMessage()
+            msg.message_id, msg.sop_class_uid, msg.affected_sop_instance_uid, msg.priority = 1, '1.2.840.10008.5.1.4.1.1.2', '1.2.3.4', 0
+            if source != 'no-data-set':
+                msg.data_set = bytes(range(200)) * 5 if source == 'bytes' else io.BytesIO(bytes(range(200)) * 5)
+            msg.set_length()
+            lens = []
+            try:
+                for p_ in msg.encode(1, peer):
+                    lens.append(len(p_.encode()) - 6)
+            except Exception:      # noqa - refusing to fragment is the expected outcome
+                pass
+            cases.append({'kind': 'maxlen', 'own': N.limbs(16384), 'ann': N.limbs(16384), 'peer': N.limbs(peer),
+                          'pdulens': [[n_ >> 16, n_ & 0xFFFF] for n_ in lens], 'delivered': True})
+            metas.append({'role': 'sender-below-the-minimum', 'configured': 16384, 'peer_announced': peer, 'announced': 16384, 'error': None, 'source': source})
     res, stats = tlc.validate_traces('Trace_Negotiation', 'Trace_Negotiation.cfg', [[c] for c in cases], chunk=20000)
     for meta, c, r in zip(metas, cases, res):
         if r['reached'] != 1:
